@@ -233,6 +233,19 @@ def handle (args : List String) (impl : String) : String × String :=
     (pairModel a b ++ " " ++ toHex (val (Cmp.min a b)) ++ " " ++ toHex (val (Cmp.max a b)) ++ " "
         ++ String.ofList [bc (Cmp.isZero a)],
      pairSpec x y ++ " " ++ toHex (min x y) ++ " " ++ toHex (max x y) ++ " " ++ String.ofList [bc (x == 0)])
+  -- `canon bits fn a b c`: further producers of the safe API (operations whose VALUES other properties decide); here only
+  -- the C04 clause is judged, on the raw limbs the implementation printed: every value it yielded is canonical
+  | ["canon", bs, _fn, _, _, _] =>
+    let bits := parseDec bs
+    let n := nlimbs bits
+    let toks := (impl.splitOn " ").filter (· ≠ "")
+    let bad := toks.filter (fun t =>
+      if t = "none" ∨ t = "panic" then false
+      else
+        let l := parseLimbs t
+        ¬ (l.length = n ∧ val l < 2 ^ bits ∧ l.all (· < W)))
+    ("skip", if toks.isEmpty then "pred:false no output"
+      else if bad.isEmpty then "pred:true" else "pred:false non-canonical value obtained: " ++ " ".intercalate bad)
   | ["gen", bs, _kind, _seed, ns] =>
     -- the implementation reports `noncanon=<k> n=<draws> or=<hex> and=<hex>`; the property: k = 0.
     -- (the OR over >= 64 draws of a generator that covers its range is MAX with overwhelming probability;
